@@ -405,6 +405,8 @@ class Typer:
         # element stores through list.append / set.add / dict.update / setdefault
         if isinstance(call.func, ast.Attribute) and call.func.attr in ('append', 'add') and len(call.args) == 1:
             self._element_store(ctx, call.func.value, ('list', self.expr(call.args[0], ctx)))
+        if isinstance(call.func, ast.Attribute) and call.func.attr == 'setdefault' and len(call.args) == 2:
+            self._element_store(ctx, call.func.value, ('dict', self.expr(call.args[0], ctx), self.expr(call.args[1], ctx)))
         for tgt in self.call_targets(call, ctx):
             if tgt.kind == 'func':
                 self._bind_args(ctx, call, tgt)
